@@ -1,0 +1,31 @@
+// SPDX-FileCopyrightText: 2023 The Pion community <https://pion.ly>
+// SPDX-License-Identifier: MIT
+
+//go:build verif
+
+package dpipe
+
+// Machine-checked contracts for /verif (govc).  Comment-only.
+
+//@ arith int
+//@ field conn closed signal
+//@ field conn closing signal
+
+// C10: a read that starts after the read deadline has passed fails with the deadline error (unless the pipe is
+// closed or closing, where end-of-file may win the race); the deadline error is returned only when the deadline's
+// Done channel was observed closed.
+//@ func (c *conn) Read(data []byte) (n int, err error)
+//@   requires c.readDeadline != nil && c.closed != nil && c.closing != nil && c.rCh != nil
+//@   modifies data[*], rdExpired, rdLast
+//@   ghost after Done#1: rdExpired = closed(result$); rdLast = result$
+//@   ghost after Done#2: rdLast = result$
+//@   ensures [deadline.persist] rdExpired && !closed(c.closed) && !closed(c.closing) ==> n == 0 && err == context.DeadlineExceeded
+//@   ensures [deadline.nospurious] err == context.DeadlineExceeded ==> n == 0 && closed(rdLast)
+//@   ensures [n] 0 <= n && n <= len(data)
+
+//@ func (c *conn) SetReadDeadline(t time.Time) (err error)
+//@   requires c.readDeadline != nil
+//@   modifies lastUntil
+//@   ensures [nil] err == nil
+
+//@ property C10: conn.Read, conn.SetReadDeadline
